@@ -1,5 +1,6 @@
 """C03 - every data field decodes to the value its bits encode, for all message types."""
 
+from . import C09 as MSMMAPS
 from . import decoder as DEC
 from . import shared as SH
 from . import tablerules as TR
@@ -29,6 +30,8 @@ def run(eng, ctx):
         DEC.harmonic_counts(eng, ctx, "C03.D9b", m)
         DEC.payload_uses(eng, ctx, "C03.D10", m)
         DEC.public_attributes(eng, ctx, "C03.D11", m)
+    # derived MSM attributes (PRN / CELLPRN / CELLSIG) are decoded values too: the mask-scan schema is a shared obligation
+    MSMMAPS.run(eng, ctx)
     TR.grammar(eng, ctx, "C10.D1")
     TR.fields_defined(eng, ctx, "C10.D2")
     TR.scoping(eng, ctx, "C10.D3")
